@@ -327,6 +327,14 @@ def dump(computed: ComputedData) -> Dict[str, Any]:
     return d
 
 
+def try_dump(computed: ComputedData) -> Tuple[Optional[Dict[str, Any]], Optional[str]]:
+    """dump(), or the error text when reading the figures back through RP2's own accessors raises (that is a result, not a harness failure)."""
+    try:
+        return dump(computed), None
+    except Exception as exc:  # pylint: disable=broad-except
+        return None, f"{type(exc).__name__} while reading the computed figures: {str(exc)[:160]}"
+
+
 def diff_dumps(a: Dict[str, Any], b: Dict[str, Any], keys: Optional[Sequence[str]] = None) -> Optional[str]:
     """First difference between two dumps (None when equal)."""
     for k in keys or sorted(set(a) | set(b)):
